@@ -273,6 +273,19 @@ pub fn random_valid_cmdline(st: Option<&Stream>, rng: &mut Rng, spec_fields: &mu
     if rng.chance(1, 10) {
         parts.extend(s(&["-v", &rng.range(0, 3).to_string()]));
     }
+    if (parts[0] == "check" || parts[0] == "view") && !parts.iter().any(|a| a == "-p") && rng.chance(1, 8) {
+        // an output destination next to a check or view: accepted with a warning and ignored; -o and
+        // the filter it requires go before the subcommand
+        let fpos = parts.iter().position(|a| ["-f", "-F", "-s"].contains(&a.as_str()));
+        let fargs: Vec<String> = match fpos {
+            Some(i) => parts.drain(i..i + 2).collect(),
+            None => Filter::Link(rng.below(12) as u8).args(),
+        };
+        let mut pre = s(&["-o", "@OUT@"]);
+        pre.extend(fargs);
+        pre.extend(parts);
+        parts = pre;
+    }
     (parts, label)
 }
 
